@@ -10,6 +10,7 @@ import math
 from ..rt import RT, MonitorViolation
 from ..ctx import hx
 from ..model import nt
+from ..model import drbg
 
 LEVEL = "exploration"
 RULE = ("operands from structured digit patterns (0, 1, B-1, B/2, single bit, runs, random) of 0..capacity digits, both "
@@ -145,6 +146,8 @@ class Env(object):
         elif kind == "pm":
             k = rng.randrange(2, W * nd + 1)
             m = (1 << k) + rng.choice([-1, 1]) * rng.choice([1, 3, 5, 17, 19, 189, 255])
+            if m.bit_length() > W * nd:
+                m = (1 << k) - 1      # stay within nd digits (Barrett needs 2*nd + 1 digits of precision)
         elif kind == "top1":
             m = (1 << (W * (nd - 1))) | (self.mag(nd - 1) if nd > 1 else 1)
         return max(2, m)
@@ -754,7 +757,7 @@ def run_mod(E):
             E.out_bn(d, exp, key)
             E.unchanged([(a, base), (b, eb), (c, ec)] + list(zip(crtf, vals)), key)
 
-    ops = ([mod_2b] * 3 + [mod_basic] * 3 + [barrt] * 5 + [monty] * 8 + [pmers] * 4 + [inv] * 4 + [inv_sim] + [mxp] * 7 + [mxp_dig] * 2 +
+    ops = ([mod_2b] * 3 + [mod_basic] * 3 + [barrt] * 8 + [monty] * 8 + [pmers] * 4 + [inv] * 4 + [inv_sim] + [mxp] * 7 + [mxp_dig] * 2 +
            [mxp_sim] * 3 + [mxp_crt])
     N = ctx.n(1500 if E.w8 else 3200, 60000)
     for _ in range(N):
@@ -1169,6 +1172,26 @@ def run_num(E):
 
 
 # =============================================================================================== part "prime"
+def predict_first_prime(seed, bits, W):
+    """the prime bn_gen_prime_basic(bits) returns when the generator has just been instantiated with seed (Hash_DRBG
+    model of C15; bn_rand fills ceil(bits/W) digits per draw) - used to steer around inputs that starve
+    bn_gen_prime_factor"""
+    m = drbg.HashDRBG(seed)
+    nb = (bits + W - 1) // W * (W // 8)
+    for _ in range(200000):
+        x = int.from_bytes(m.generate(nb), "little") & ((1 << bits) - 1)
+        if x.bit_length() == bits and nt.is_prime(x):
+            return x
+    return None
+
+
+def factor_candidates(av, abits, bbits):
+    """number of multipliers u in [2^(g-1), 2^g), g = bbits - abits, for which av*u + 1 has exactly bbits bits"""
+    t = 1 << (bbits - abits - 1)
+    umin = max(t, -(-((1 << (bbits - 1)) - 1) // av))
+    return max(0, 2 * t - umin)
+
+
 _COMPOSITES = None
 
 
@@ -1311,9 +1334,22 @@ def run_prime(E):
         if bad:
             bbits = rng.choice([abits, abits - 1])
             key = "bn_gen_prime_factor|bbits<=abits"
-        if not ctx.begin(key, [abits, bbits], budget=120):
+        seed = rng.getrandbits(256).to_bytes(32, "big")
+        apred = None
+        if not bad and R.target("bn_gen_prime") == "bn_gen_prime_basic":
+            # the routine draws a once and then looks for u with a*u + 1 prime of exactly bbits bits; when a is at the
+            # bottom of its range (almost) no u qualifies and the call never returns (directed class of the fatal
+            # part): predict a with the generator model and draw around that predicate
+            apred = predict_first_prime(seed, abits, W)
+            if apred is None or factor_candidates(apred, abits, bbits) < 40 * bbits:
+                ctx.add("bn_gen_prime_factor_starved_inputs_avoided", 1)
+                return
+        if not ctx.begin(key, [abits, bbits, seed.hex()], budget=60):
             return
-        reseed()
+        R.wr_int(R.ctx_field("seeded"), 0)
+        sd = R.put(seed)
+        R.call("rand_seed", sd, 32)
+        R.free(sd)
         E.junk(a, b)
         r = R.call("bn_gen_prime_factor", a, b, abits, bbits)
         if bad:
@@ -1326,6 +1362,8 @@ def run_prime(E):
         ctx.check(va is not None and nt.is_prime(va, rng) and va.bit_length() == abits, key + "|factor", det)
         ctx.check(vb is not None and nt.is_prime(vb, rng) and vb.bit_length() == bbits, key + "|prime", det)
         ctx.check(va and vb and (vb - 1) % va == 0, key + "|divisibility", det)
+        if apred is not None:
+            ctx.check(va == apred, key + "|not-the-generator-stream", {"a": hx(va or 0), "model": hx(apred)})
 
     def factor():
         # Pollard p-1 with a fixed bound: may or may not find a factor; whatever it returns must be one
@@ -2074,6 +2112,24 @@ def run_fatal(E):
             E.out_bn(d, pow(base, x, n), key)
     case("bn_mxp_crt|q>>p", ["p=65537", "q=2^127-1"], crt_unbalanced, budget=5)
 
+    # bn_gen_prime_factor(a, b, 8, 12): when the 8-bit prime drawn is 131 no u in [8, 16) gives a 12-bit a*u + 1
+    def starved(seed):
+        def body(key):
+            R.wr_int(R.ctx_field("seeded"), 0)
+            sd = R.put(seed)
+            R.call("rand_seed", sd, 32)
+            R.free(sd)
+            E.junk(a, b)
+            r = R.call("bn_gen_prime_factor", a, b, 8, 12)
+            ctx.check(r.caught or r.i == K["RLC_ERR"], key + "|returned", {"a": hx(R.bn_val(a) or 0), "b": hx(R.bn_val(b) or 0), "ret": r.i})
+        return body
+    if R.target("bn_gen_prime") == "bn_gen_prime_basic":
+        for i in range(4000):
+            seed = b"C09 starved bn_gen_prime_factor %04d" % i
+            if predict_first_prime(seed, 8, W) == 131 and factor_candidates(131, 8, 12) == 0:
+                case("bn_gen_prime_factor|no-candidate-multiplier", [8, 12, seed.hex(), "a = 131"], starved(seed), budget=5)
+                break
+
     def alive(key):
         R.bn_put(a, 91)
         R.bn_put(b, 35)
@@ -2097,3 +2153,19 @@ def run(ctx, part):
     globals()["run_" + part](E)
     ctx.note("functions_exercised", sorted(R.fn_seen))
     ctx.note("error_codes_seen", {str(k): v for k, v in R.err_codes.items()})
+
+
+SCOPE = ("bn_evl bn_factor bn_gcd_basic bn_gcd_binar bn_gcd_dig bn_gcd_ext_basic bn_gcd_ext_binar bn_gcd_ext_dig bn_gcd_ext_lehme "
+         "bn_gcd_ext_mid bn_gcd_lehme bn_gen_prime_basic bn_gen_prime_factor bn_gen_prime_safep bn_gen_prime_stron bn_is_factor "
+         "bn_is_prime bn_is_prime_basic bn_is_prime_rabin bn_is_prime_solov bn_lag bn_lcm bn_mod_2b bn_mod_barrt bn_mod_basic bn_mod_inv "
+         "bn_mod_inv_sim bn_mod_monty_back bn_mod_monty_basic bn_mod_monty_comba bn_mod_monty_conv bn_mod_pmers bn_mod_pre_barrt "
+         "bn_mod_pre_monty bn_mod_pre_pmers bn_mxp_basic bn_mxp_crt bn_mxp_dig bn_mxp_monty bn_mxp_sim bn_mxp_sim_few bn_mxp_sim_lot "
+         "bn_mxp_slide bn_rec_frb bn_rec_glv bn_rec_jsf bn_rec_naf bn_rec_reg bn_rec_rtnaf bn_rec_sac bn_rec_slw bn_rec_tnaf "
+         "bn_rec_tnaf_get bn_rec_tnaf_mod bn_rec_win bn_smb_jac bn_smb_leg bn_srt").split()
+
+
+def finish(cov):
+    seen = set(cov.get("functions_exercised", []))
+    cov["functions_in_scope"] = len(SCOPE)
+    cov["functions_in_scope_exercised"] = len([f for f in SCOPE if f in seen])
+    cov["functions_uncovered"] = [f for f in SCOPE if f not in seen]
